@@ -927,6 +927,7 @@ func (c *Ctx) rangeMap(x *ast.RangeStmt, u *types.Map, ls *LoopSpec, ord int) fl
 		return flowNext
 	}
 	c.assume(And(Select(d, k), Not(Select(vis, k))))
+	c.assume(Not(Eq(m.T, IntLit(0)))) // a nil map has no entries: inside the body the map is not nil
 	c.assume(intRangeOf(u.Key()).InRange(k))
 	if keyLV != nil {
 		c.setRangeVar(keyLV, Scalar(k, u.Key()))
